@@ -8,7 +8,9 @@ import (
 	"fmt"
 	"strings"
 	"testing"
+	"time"
 
+	"github.com/trustbloc/sidetree-core-go/pkg/document"
 	"pgregory.net/rapid"
 
 	"verifharness/kit/asm"
@@ -70,6 +72,16 @@ func evalCase(c *hist.Case) (kind, sig, msg string, advisory []string) {
 	v, adv := res.VsModel(got, m)
 	if len(v) > 0 {
 		return "C03/model-mismatch", "model-mismatch", fmt.Sprintf("resolved state differs from the reference state machine on %v: implementation=%s reference=%s", v, js(got), js(m)), adv
+	}
+	if ma := c.ModelAsOf(c.AsOf); c.AsOf != 0 && ma != nil {
+		// the state as of a time is the state machine's state over the history up to that time
+		ga := res.Resolve(c.Client(), c.Suffix, pub, unpub, document.WithVersionTime(time.Unix(int64(c.AsOf), 0).UTC().Format(time.RFC3339)))
+		if ga.Panic != "" {
+			return "C03/panic", "panic", "Resolve (as of a time) panicked: " + ga.Panic, nil
+		}
+		if va, _ := res.VsModel(ga, ma); len(va) > 0 {
+			return "C03/model-mismatch", "model-mismatch-as-of", fmt.Sprintf("state resolved as of time %d differs from the reference state machine over the operations up to that time on %v: implementation=%s reference=%s", c.AsOf, va, js(ga), js(ma)), adv
+		}
 	}
 	return "", "", "", adv
 }
@@ -284,7 +296,7 @@ func TestEnumHistories(t *testing.T) {
 }
 
 func TestRapidLongHistories(t *testing.T) {
-	ev.Rule(chkRapid, "rapid: tree-generated histories of 3-30 operations with fresh keys of all 5 types, both hash algorithms, forks, all delta classes, signed windows, all forgery classes, cycles, replays, duplicate creates, unpublished operations, coordinates with numbers independent of times, and (one in three) two protocol versions with different maximum operation time deltas, every operation stamped with one of them, and (one in four) a node whose server-clock validator considers every signed window expired; same oracle; non-trivial as above")
+	ev.Rule(chkRapid, "rapid: tree-generated histories of 3-30 operations with fresh keys of all 5 types, both hash algorithms, forks, all delta classes, signed windows, all forgery classes, cycles, replays, duplicate creates, unpublished operations, coordinates with numbers independent of times, and (one in three) two protocol versions with different maximum operation time deltas, every operation stamped with one of them, and (one in four) a node whose server-clock validator considers every signed window expired; one case in three additionally resolves as of the time of a drawn operation (-1/0/+1) and compares with the reference state machine over the operations up to that time; same oracle; non-trivial as above")
 	ev.Rapid(t, chkRapid, 500, 4000, func(t *rapid.T) {
 		h := gen.Hist(t, gen.HistOpts{MinOps: 3, MaxOps: 30, Forks: true, BadDeltas: true, Windows: true, Forges: true, DupCreates: true, Cycles: true, Replays: true, Pool: "c03"})
 		anch := gen.Anchor(t, h, gen.AnchorOpts{Unpublished: true})
@@ -296,8 +308,18 @@ func TestRapidLongHistories(t *testing.T) {
 		c.Versions = versions
 		// resolution of anchored operations does not depend on the node's clock
 		c.ExpiredClock = rapid.IntRange(0, 3).Draw(t, "expiredClock") == 0
+		if rapid.IntRange(0, 2).Draw(t, "alsoAsOf") == 0 {
+			// additionally the state as of the time of a drawn operation (or just before / after it)
+			at := int64(c.Ops[rapid.IntRange(0, len(c.Ops)-1).Draw(t, "asOfOp")].Desc.Time) + int64(rapid.IntRange(-1, 1).Draw(t, "asOfOffset"))
+			if at > 0 {
+				c.AsOf = uint64(at)
+			}
+		}
 		kind, sig, msg, _ := evalCase(c)
 		b := branches(c)
+		if c.AsOf != 0 {
+			b["as-of-view"] = true
+		}
 		if len(versions) > 0 {
 			b["two-versions"] = true
 		}
